@@ -163,5 +163,54 @@ func properties() map[string]*propDef {
 		Rule:           "tables of the fragment (literal roots incl. nested, literal/plain-variable segments) x routers; per symbolic URL one dispatch per method, one OPTIONS dispatch through OPTIONSFilter, and a filter-less twin",
 		RequiredCovers: []string{"405", "options-nonempty"},
 	}
+	m["C08"] = &propDef{
+		ID: "C08",
+		Items: func(tier string, seed int) []item {
+			var out []item
+			for cfg := 0; cfg < 6; cfg++ {
+				out = append(out, item{Harness: "H_C08", Cfg: []int{cfg}, Label: "allowed domains = cfg%3 symbolic entries; predicate configured iff cfg>=3"})
+			}
+			return out
+		},
+		Bounds: map[string]interface{}{"origin_bytes": 6, "allowed_domain_entries": "0..2 symbolic strings of <= 6 bytes", "predicate": "nil or equality with a symbolic string of <= 6 bytes",
+			"method_bytes": 7, "access_control_request_method_bytes": 4},
+		Assumptions:    append([]string{"AllowedDomainFunc ranges over the predicates 'equals s' for a symbolic string s (uninterpreted predicates are not expressible in QF_BV)"}, commonAssumptions...),
+		Rule:           "CORS filter as container filter in front of a marker filter and a 3-route service, plus a filter-less twin; Origin, allowed-domain entries, predicate string, cookies flag, method and requested method symbolic",
+		RequiredCovers: []string{"allowed", "refused", "granted", "not-granted"},
+	}
+	m["C09"] = &propDef{
+		ID: "C09",
+		Items: func(tier string, seed int) []item {
+			var out []item
+			for cfg := 0; cfg < 4; cfg++ {
+				out = append(out, item{Harness: "H_C09", Cfg: []int{cfg}, Label: "cfg%2==0: AllowedMethods configured [GET,PUT], else computed from the container; cfg>=2: header wildcard configured"})
+			}
+			return out
+		},
+		Bounds: map[string]interface{}{"requested_method_bytes": 5, "requested_headers_bytes": 8, "requested_headers": 2, "allowed_headers": "one symbolic entry (<= 4 bytes) + X-B (+ *)",
+			"method_bytes": 7, "urls": 2, "sequence": "optional earlier preflight to the other URL"},
+		Assumptions:    commonAssumptions,
+		Rule:           "allowed origin fixed; method, Access-Control-Request-Method/-Headers, one allowed-header entry, cookies flag, target URL and an optional earlier preflight to the other URL are symbolic",
+		RequiredCovers: []string{"preflight", "preflight-granted", "preflight-refused", "actual", "after-warmup"},
+	}
+	m["C06"] = &propDef{
+		ID: "C06",
+		Items: func(tier string, seed int) []item {
+			cfgs := [][]int{{0, 0, 0, -1, 0}, {1, 1, 1, -1, 0}, {1, 1, 1, 0, 0}, {1, 1, 1, 1, 0}, {1, 1, 1, 2, 0}, {2, 0, 1, -1, 1}, {1, 1, 1, -1, 1}, {0, 1, 1, -1, 1},
+				{1, 1, 1, -1, 2}, {2, 1, 0, 0, 2}, {0, 0, 0, -1, 2}, {2, 2, 2, -1, 0}, {2, 1, 2, 1, 0}}
+			if tier == "thorough" {
+				cfgs = append(cfgs, []int{2, 2, 2, 0, 0}, []int{2, 2, 2, 3, 0}, []int{2, 2, 2, 5, 0}, []int{2, 2, 2, -1, 1}, []int{2, 2, 2, -1, 2}, []int{3, 3, 3, -1, 0})
+			}
+			var out []item
+			for _, c := range cfgs {
+				out = append(out, item{Harness: "H_C06", Cfg: c, Label: "container/service/route filter counts, index of the middleware filter (-1 none), mode (0 routed, 1 routing failure, 2 HandleWithFilter via ServeHTTP)"})
+			}
+			return out
+		},
+		Bounds:         map[string]interface{}{"filters_per_level": "0..2 (thorough 3)", "behaviour_bits_per_filter": "stop + (replace pair | set attribute)", "sequence": "optional earlier all-pass request"},
+		Assumptions:    append([]string{"ServeMux is modelled by the Go 1.21 matching rules (go.mod says go 1.13)"}, commonAssumptions...),
+		Rule:           "enumerated filter counts per level x middleware position x entry mode; every filter's pass-on/replace/attribute behaviour is a symbolic bit",
+		RequiredCovers: []string{"handler-ran", "routing-failure", "after-warmup"},
+	}
 	return m
 }
